@@ -134,3 +134,75 @@ def replay_history(path, oracle, pid):
     bad = oracle(tr) if oracle else []
     print("replay %s: daemon-died=%s oracle=%s diff=%s" % (pid, bool(died), [t for _, t in bad][:3], json.dumps(diff)[:600] if diff else None))
     return 1 if (died or bad or diff) else 0
+
+
+class Tracker:
+    """follows who is connected, named and owns what, from the ops and the implementation's replies
+    (ownership by the specification's rules with the recorded queue-jump of bus/services.c)"""
+    def __init__(self):
+        self.names, self.queues, self.live = {}, {}, set()
+        self.eaves = set()      # connections that ever asked for an eavesdropping rule
+
+    def primary(self, d):
+        if d.startswith(":"):
+            for c, n in self.names.items():
+                if n == d and c in self.live:
+                    return c
+            return None
+        q = self.queues.get(d)
+        return q[0][0] if q else None
+
+    def before(self, i, tr):
+        op = tr.ops[i]
+        if op[0] == "connect":
+            self.live.add(op[1])
+
+    def after(self, i, tr):
+        per, closed = tr.steps[i]
+        op = tr.ops[i]
+        gone = set(closed)
+        if op[0] == "close":
+            gone.add(op[1])
+        actor = op[1] if op[0] == "send" else None
+        sent = tr.sent(i) if op[0] == "send" else None
+        if sent and actor in self.live and actor not in gone and fld(sent, "t") == "1" and hexname(fld(sent, "dest")) == "org.freedesktop.DBus" \
+                and hexname(fld(sent, "iface")) in ("org.freedesktop.DBus", None):
+            member = hexname(fld(sent, "member"))
+            mine = per.get(actor, [])
+            replies = [l for l in mine if fld(l, "rs") == fld(sent, "ser") and hexname(fld(l, "sender")) == "org.freedesktop.DBus" and fld(l, "t") == "2"]
+            body = fld(sent, "body") or ""
+            if member == "Hello" and actor not in self.names and replies and fld(replies[0], "sig") == "73":
+                self.names[actor] = bytes.fromhex(fld(replies[0], "body")[2:]).decode("latin1")
+            elif member == "RequestName" and replies and actor in self.names:
+                m = re.match(r"^s:([0-9a-f]*|-),u:(\d+)$", body)
+                if m:
+                    name = bytes.fromhex(m.group(1)).decode("latin1") if m.group(1) != "-" else ""
+                    flags = int(m.group(2)); allow, replace, noq = bool(flags & 1), bool(flags & 2), bool(flags & 4)
+                    q = self.queues.get(name, [])
+                    e = [actor, allow, noq]
+                    if not q: q2 = [e]
+                    elif q[0][0] == actor: q2 = [e] + q[1:]
+                    elif q[0][1] and replace: q2 = [e] + ([] if q[0][2] else [q[0]]) + [x for x in q[1:] if x[0] != actor]
+                    elif noq: q2 = [x for x in q if x[0] != actor]
+                    elif replace: q2 = [q[0], e] + [x for x in q[1:] if x[0] != actor]
+                    elif any(x[0] == actor for x in q): q2 = [e if x[0] == actor else x for x in q]
+                    else: q2 = q + [e]
+                    self.queues[name] = q2
+            elif member == "ReleaseName" and replies and actor in self.names:
+                m = re.match(r"^s:([0-9a-f]*|-)$", body)
+                if m:
+                    name = bytes.fromhex(m.group(1)).decode("latin1") if m.group(1) != "-" else ""
+                    q2 = [x for x in self.queues.get(name, []) if x[0] != actor]
+                    if q2: self.queues[name] = q2
+                    else: self.queues.pop(name, None)
+            elif member == "AddMatch" and replies and "eavesdrop" in (bytes.fromhex(body[2:]).decode("latin1") if body.startswith("s:") and body != "s:-" else ""):
+                self.eaves.add(actor)
+        for c in gone:
+            if c in self.live:
+                self.live.discard(c)
+                for name in list(self.queues):
+                    q2 = [x for x in self.queues[name] if x[0] != c]
+                    if q2: self.queues[name] = q2
+                    else: self.queues.pop(name)
+                self.names.pop(c, None)
+                self.eaves.discard(c)
